@@ -644,6 +644,9 @@ def opsig(repo):
     for n in walk_no_nested_funcs(f.node):
         if isinstance(n, ast.Assign) and len(n.targets) == 1 and isinstance(n.targets[0], ast.Name) and isinstance(n.value, ast.Name):
             alias[n.targets[0].id] = n.value.id
+        elif isinstance(n, ast.Assign) and len(n.targets) == 1 and isinstance(n.targets[0], ast.Name) and isinstance(n.value, ast.Call) \
+                and (call_name(n.value) or "").split(".")[-1] == "partial" and n.value.args and isinstance(n.value.args[0], ast.Name):
+            alias[n.targets[0].id] = n.value.args[0].id      # functools.partial(checker, <context>) is still that checker
     rows = {}
     for k, v in zip(table.keys, table.values):
         name = dotted_name(k).rsplit(".", 1)[1]
